@@ -679,6 +679,7 @@ class Tables:
         self.create = prog.func("validators.create")
         self.drafts = {}
         self.lambdas = {}
+        self.alias_writes = []      # (class variable, alias name, key, statement): module-level stores into another class's table
         self._load_drafts()
         self._load_types()
         self.validator_cls = self._find_validator_cls()
@@ -717,8 +718,44 @@ class Tables:
             return out
         if isinstance(e, ast.Name):
             r = self.prog.resolve_name(mod, e.id)
-            if isinstance(r, tuple) and r[0] == "expr" and len(r[1].bindings.get(e.id, [])) == 1:
-                return self._dict_items(r[1], r[2], what, depth + 1)
+            if isinstance(r, tuple) and r[0] == "expr" and len(r[1].bindings.get(e.id, [])) == 1 and not (
+                    isinstance(r[2], ast.Attribute) and r[2].attr == "VALIDATORS"):
+                try:
+                    items = self._dict_items(r[1], r[2], what, depth + 1)
+                except AnalysisError:
+                    items = None
+                if items is not None:
+                    # module-level `NAME[<constant>] = value` statements fill the table further (in source order)
+                    items = list(items)
+                    for st in r[1].tree.body:
+                        if isinstance(st, ast.Assign) and len(st.targets) == 1 and isinstance(st.targets[0], ast.Subscript) \
+                                and isinstance(st.targets[0].value, ast.Name) and st.targets[0].value.id == e.id and const_str(st.targets[0].slice) is not None:
+                            items = [(k, v) for (k, v) in items if const_str(k) != const_str(st.targets[0].slice)] + [(st.targets[0].slice, st.value)]
+                    return items
+        # another class's table used as it is: `tbl = Draft6Validator.VALIDATORS` (the very dict object, not a copy)
+        tgt = e
+        via = None
+        if isinstance(e, ast.Name):
+            r = self.prog.resolve_name(mod, e.id)
+            if isinstance(r, tuple) and r[0] == "expr":
+                tgt, via = r[2], e.id
+        if isinstance(tgt, ast.Attribute) and tgt.attr == "VALIDATORS" and isinstance(tgt.value, ast.Name):
+            other = next((d for d in self.drafts.values() if d.var == tgt.value.id), None)
+            if other is not None:
+                items = [(ast.Constant(k), other.table_exprs[k]) for k in other.table]
+                if via is not None:
+                    for st in mod.tree.body:
+                        if isinstance(st, ast.Assign) and len(st.targets) == 1 and isinstance(st.targets[0], ast.Subscript) \
+                                and isinstance(st.targets[0].value, ast.Name) and st.targets[0].value.id == via and const_str(st.targets[0].slice) is not None:
+                            ks = const_str(st.targets[0].slice)
+                            items = [(k, v) for (k, v) in items if const_str(k) != ks] + [(st.targets[0].slice, st.value)]
+                            # the alias *is* the other class's table: the store lands there too
+                            fn = self.prog.resolve_expr(mod, st.value)
+                            if isinstance(fn, Func):
+                                other.table[ks] = fn
+                                other.table_exprs[ks] = st.value
+                            self.alias_writes.append((other.var, via, ks, st))
+                return items
         raise AnalysisError("%s is not a dict literal" % what)
 
     def _lambda_func(self, mod, node, qual):
